@@ -246,3 +246,15 @@ package server
 //@   nosafety
 //@   requires n != nil
 //@   ensures n.timeout == to
+
+// Collecting what is to be acknowledged on one interface reads the flags; it
+// clears none (they are cleared for all interfaces together after every
+// interface has had its PSNPs), so an LSP received on two circuits is
+// acknowledged on both.
+//@ contract (*lsdb)._getLSPWithSSNSet
+//@   props C32
+//@   nosafety
+//@   requires l != nil
+//@   modifies nothing
+//@   loop 0 vars ret []*packet.LSPEntry
+//@   loop 0 invariant verif_freshslice(ret)
